@@ -19,7 +19,7 @@ for _v in ("OPENBLAS_NUM_THREADS", "OMP_NUM_THREADS", "MKL_NUM_THREADS"):
     os.environ.setdefault(_v, "1")
 
 from . import c05_util as U
-from .common import SRC, add_failure, bump, new_outcome, rat, unrat
+from .common import SRC, add_failure, bump, load_known, new_outcome, rat, unrat
 
 PROP = "C05"
 PROPS_FILES = ["CogentModel/Props/C05.lean", "CogentModel/Props/C05Real.lean"]
@@ -37,12 +37,35 @@ ASSUMPTIONS = [
     "float rounding, LAPACK eig/inv accuracy and numpy.maximum(result, 0) clipping are not modelled: back-ends are compared "
     "numerically against the exact Taylor value with an exact remainder bound (tolerance max(1e-9, bound))",
     "GammaDefn: only the normalisation given the bin medians is modelled (gdtri is not)",
-    "entrywise non-negativity of exp(tQ) is stated but not proved in Lean; checked numerically on the implementation",
+    "GeneralStationary's column-balancing loop is modelled and shadowed but its flow-balance post-condition is not proved "
+    "(stationaryQ_stationary assumes it; pi Q = 0 is checked numerically on the class)",
 ]
 
 Q_RTOL = 1e-10
 P_ATOL = 1e-9
 REL_ATOL = 1e-8  # relational identities on the float implementation
+
+
+_KNOWN = None
+
+
+def _fail(out, kind, what, inp, expected, got, sig=None):
+    """add_failure, but failures that a listed known finding explains are kept at most 3 per signature, so that a flood
+    of known-class failures can never push a *different* violation out of the runner's 200-failure window"""
+    global _KNOWN
+    if _KNOWN is None:
+        try:
+            _KNOWN = load_known(PROP)
+        except Exception:
+            _KNOWN = []
+    probe = dict(sig=sig, input=inp)
+    if any(match_finding(probe, k) for k in _KNOWN):
+        cnt = out.setdefault("_known_count", {})
+        cnt[sig] = cnt.get(sig, 0) + 1
+        if cnt[sig] > 3:
+            bump(out, "known_class_failures_not_listed", sig)
+            return
+    add_failure(out, kind, what, inp, expected, got, sig=sig)
 
 
 def taylor_tolerances():
@@ -443,30 +466,30 @@ def _check_Q(out, label, sm, lf, edge, inp, reversible, stationary):
     out["evaluations"] += 1
     rs = np.abs(Q.sum(axis=1)).max()
     if not rs <= 1e-11 * scale * n:
-        add_failure(out, "spec", "rows of Q do not sum to zero", inp, 0.0, float(rs), sig="Q-rowsum")
+        _fail(out, "spec", "rows of Q do not sum to zero", inp, 0.0, float(rs), sig="Q-rowsum")
     off = Q - np.diag(np.diag(Q))
     if off.min() < 0:
-        add_failure(out, "spec", "negative off-diagonal rate", inp, ">= 0", float(off.min()), sig="Q-offdiag")
+        _fail(out, "spec", "negative off-diagonal rate", inp, ">= 0", float(off.min()), sig="Q-offdiag")
     rate = -float(np.dot(wp, np.diag(Q)))
     if not abs(rate - 1.0) <= 1e-9:
-        add_failure(out, "spec", "expected rate at the motif probabilities is not one (-sum pi_i Q_ii)", inp, 1.0, rate,
+        _fail(out, "spec", "expected rate at the motif probabilities is not one (-sum pi_i Q_ii)", inp, 1.0, rate,
                     sig="Q-calibration")
     t_edge = float(lf.get_param_value("length", edge=edge))
     Qu = np.array(lf.get_rate_matrix_for_edge(edge, calibrated=False).array)
     ens = -float(np.dot(wp, np.diag(Qu)))
     if not abs(ens - t_edge) <= 1e-9 * max(1.0, t_edge):
-        add_failure(out, "spec", "uncalibrated Q: expected substitutions per site differ from the branch length", inp, t_edge, ens,
+        _fail(out, "spec", "uncalibrated Q: expected substitutions per site differ from the branch length", inp, t_edge, ens,
                     sig="Q-length")
     if stationary:
         piQ = np.abs(wp @ Q).max()
         if not piQ <= 1e-10 * scale:
-            add_failure(out, "spec", "motif probabilities are not stationary (pi Q != 0)", inp, 0.0, float(piQ),
+            _fail(out, "spec", "motif probabilities are not stationary (pi Q != 0)", inp, 0.0, float(piQ),
                         sig="Q-stationary")
     if reversible:
         F = wp[:, None] * Q
         db = np.abs(F - F.T).max()
         if not db <= 1e-10 * scale:
-            add_failure(out, "spec", "detailed balance fails (pi_i Q_ij != pi_j Q_ji)", inp, 0.0, float(db),
+            _fail(out, "spec", "detailed balance fails (pi_i Q_ij != pi_j Q_ji)", inp, 0.0, float(db),
                         sig="Q-detailed-balance")
     # textbook reconstruction
     if not label.startswith("user:"):
@@ -480,7 +503,7 @@ def _check_Q(out, label, sm, lf, edge, inp, reversible, stationary):
             d = np.abs(Ql - Q).max()
             bump(out, "textbook_checked", label)
             if not d <= 1e-9 * scale:
-                add_failure(out, "spec", "Q differs from the textbook definition of the model", inp, "textbook Q",
+                _fail(out, "spec", "Q differs from the textbook definition of the model", inp, "textbook Q",
                             float(d), sig="Q-textbook")
     return Q, wp
 
@@ -551,25 +574,25 @@ def _check_P(out, ctx, label, sm, Q, wp, lengths, inp, reversible, stationary, r
         for nm, P, tt in (("s", Ps, s), ("t", Pt, t), ("s+t", Pst, s + t)):
             rs = float(np.abs(P.sum(axis=1) - 1).max())
             if not rs <= REL_ATOL:
-                add_failure(out, "spec", f"P({nm}) rows do not sum to one", dict(i2, diff=rs), 1.0, rs, sig=f"P-rowsum:{name}")
+                _fail(out, "spec", f"P({nm}) rows do not sum to one", dict(i2, diff=rs), 1.0, rs, sig=f"P-rowsum:{name}")
             if not P.min() >= -REL_ATOL:
-                add_failure(out, "spec", f"P({nm}) has a negative entry", dict(i2, diff=float(-P.min())), ">= 0", float(P.min()),
+                _fail(out, "spec", f"P({nm}) has a negative entry", dict(i2, diff=float(-P.min())), ">= 0", float(P.min()),
                             sig=f"P-negative:{name}")
             if stationary:
                 d = float(np.abs(wp @ P - wp).max())
                 if not d <= REL_ATOL:
-                    add_failure(out, "spec", "pi P != pi for a stationary model", dict(i2, diff=d), 0.0, d, sig=f"P-stationary:{name}")
+                    _fail(out, "spec", "pi P != pi for a stationary model", dict(i2, diff=d), 0.0, d, sig=f"P-stationary:{name}")
             if reversible:
                 F = wp[:, None] * P
                 d = float(np.abs(F - F.T).max())
                 if not d <= REL_ATOL:
-                    add_failure(out, "spec", "detailed balance fails for P", dict(i2, diff=d), 0.0, d, sig=f"P-detailed-balance:{name}")
+                    _fail(out, "spec", "detailed balance fails for P", dict(i2, diff=d), 0.0, d, sig=f"P-detailed-balance:{name}")
         d0 = float(np.abs(P0 - eye).max())
         if not d0 <= P_ATOL:
-            add_failure(out, "spec", "P(0) is not the identity", dict(i2, diff=d0), "I", d0, sig=f"P-zero:{name}")
+            _fail(out, "spec", "P(0) is not the identity", dict(i2, diff=d0), "I", d0, sig=f"P-zero:{name}")
         dsg = float(np.abs(Ps @ Pt - Pst).max())
         if not dsg <= REL_ATOL:
-            add_failure(out, "spec", "P(s)P(t) != P(s+t)", dict(i2, diff=dsg), 0.0, dsg, sig=f"P-semigroup:{name}")
+            _fail(out, "spec", "P(s)P(t) != P(s+t)", dict(i2, diff=dsg), 0.0, dsg, sig=f"P-semigroup:{name}")
         refs.append((label, name, Q, s + t, Pst, cond))
     # all back-ends agree: each one against Pade (Pade itself is held against the exact exponential by the reference check)
     if "pade" in Pst_by:
@@ -578,7 +601,7 @@ def _check_P(out, ctx, label, sm, Q, wp, lengths, inp, reversible, stationary, r
                 continue
             d = float(np.abs(P - Pst_by["pade"]).max())
             if not d <= REL_ATOL:
-                add_failure(out, "spec", f"back-end {name} disagrees with pade",
+                _fail(out, "spec", f"back-end {name} disagrees with pade",
                             dict(inp, s=s, t=t, backend=name, norm=norm * (s + t), eig_cond=cond, diff=d), 0.0, d,
                             sig=f"P-backends:{name}")
 
@@ -609,16 +632,16 @@ def _check_lf_psubs(out, label, sm, rng, inp_params):
         out["evaluations"] += 1
         d = float(np.abs(P["a"] @ P["b"] - P["c"]).max())
         if not d <= REL_ATOL:
-            add_failure(out, "spec", "lf psubs: P(s)P(t) != P(s+t)", dict(inp, backend=expm, diff=d), 0.0, d, sig=f"lf-semigroup:{expm}")
+            _fail(out, "spec", "lf psubs: P(s)P(t) != P(s+t)", dict(inp, backend=expm, diff=d), 0.0, d, sig=f"lf-semigroup:{expm}")
         for e in "abc":
             rs = float(np.abs(P[e].sum(axis=1) - 1).max())
             if not rs <= REL_ATOL or not P[e].min() >= -REL_ATOL:
-                add_failure(out, "spec", "lf psub is not row-stochastic", dict(inp, backend=expm, edge=e, diff=max(rs, float(-P[e].min()))), 1.0,
+                _fail(out, "spec", "lf psub is not row-stochastic", dict(inp, backend=expm, edge=e, diff=max(rs, float(-P[e].min()))), 1.0,
                             [rs, float(P[e].min())], sig=f"lf-stochastic:{expm}")
         if expm != "pade" and "pade" in Ps:
             d = float(max(np.abs(P[e] - Ps["pade"][e]).max() for e in "abc"))
             if not d <= REL_ATOL:
-                add_failure(out, "spec", f"lf psubs differ between expm={expm} and expm=pade", dict(inp, backend=expm, diff=d), 0.0, d,
+                _fail(out, "spec", f"lf psubs differ between expm={expm} and expm=pade", dict(inp, backend=expm, diff=d), 0.0, d,
                             sig=f"lf-backends:{expm}")
     return lf0
 
@@ -656,7 +679,7 @@ def _check_discrete(out, label, sm, rng):
         P = np.array(lf.get_psub_for_edge(e).array)
         out["evaluations"] += 1
         if np.abs(P.sum(axis=1) - 1).max() > 1e-9 or P.min() < 0:
-            add_failure(out, "spec", "discrete-time psub is not row-stochastic", dict(model=label, edge=e), 1.0, P.tolist(),
+            _fail(out, "spec", "discrete-time psub is not row-stochastic", dict(model=label, edge=e), 1.0, P.tolist(),
                         sig="discrete-stochastic")
 
 
@@ -676,7 +699,7 @@ def _check_solved(out, label, sm, rng):
         P2 = PadeExponentiator(Q)(info["lengths"][e])
         d = np.abs(P - P2).max()
         if not d <= REL_ATOL:
-            add_failure(out, "spec", "closed-form psub differs from exp(Qt)", dict(model=label, params=info["params"],
+            _fail(out, "spec", "closed-form psub differs from exp(Qt)", dict(model=label, params=info["params"],
                         mprobs=info["mprobs"], t=info["lengths"][e]), 0.0, float(d), sig="solved-backend")
 
 
@@ -696,7 +719,7 @@ def _check_rate_classes(out, ctx, rng, reps):
             m = float(np.dot(w, vals))
             bump(out, "rate_class_kind", nm)
             if not abs(m - 1) <= 1e-9:
-                add_failure(out, "spec", "rate-class multipliers do not average to one", dict(kind=nm, weights=w.tolist()), 1.0, m,
+                _fail(out, "spec", "rate-class multipliers do not average to one", dict(kind=nm, weights=w.tolist()), 1.0, m,
                             sig=f"rates-mean:{nm}")
     # through a likelihood function with bins
     from cogent3 import make_tree
@@ -718,7 +741,7 @@ def _check_rate_classes(out, ctx, rng, reps):
         out["evaluations"] += 1
         m = float(np.dot(bpr, rates))
         if not abs(m - 1) <= 1e-9:
-            add_failure(out, "spec", "lf rate-class multipliers do not average to one", dict(distribution=dist, bprobs=bpr.tolist()),
+            _fail(out, "spec", "lf rate-class multipliers do not average to one", dict(distribution=dist, bprobs=bpr.tolist()),
                         1.0, m, sig=f"rates-mean-lf:{dist}")
         # each bin's psub is the exponential of rate*length*Q
         from cogent3.maths.matrix_exponentiation import PadeExponentiator
@@ -728,7 +751,7 @@ def _check_rate_classes(out, ctx, rng, reps):
         P = np.array(lf.get_psub_for_edge("a", bin=lf.bin_names[-1]).array)
         d = np.abs(PadeExponentiator(Q)(t * rates[-1]) - P).max()
         if not d <= REL_ATOL:
-            add_failure(out, "spec", "bin psub is not exp(rate*length*Q)", dict(distribution=dist), 0.0, float(d), sig=f"rates-psub:{dist}")
+            _fail(out, "spec", "bin psub is not exp(rate*length*Q)", dict(distribution=dist), 0.0, float(d), sig=f"rates-psub:{dist}")
 
 
 def _reference_check(out, ctx, refs):
@@ -762,7 +785,7 @@ def _reference_check(out, ctx, refs):
         d = U.maxabs_diff(U.fmat(rep["P"]), P)
         bump(out, "reference_checked", name)
         if not d <= max(P_ATOL, bound):
-            add_failure(out, "spec", f"back-end {name} differs from exp(tQ) (exact Taylor reference, remainder bound {bound:.1e})",
+            _fail(out, "spec", f"back-end {name} differs from exp(tQ) (exact Taylor reference, remainder bound {bound:.1e})",
                         dict(model=label, Q=Q.tolist(), t=t, backend=name, norm=float(abs(Q).sum(axis=1).max()) * t, diff=float(d), eig_cond=cond),
                         "exp(tQ)", float(d), sig=f"P-accuracy:{name}")
 
@@ -829,7 +852,7 @@ def spec_check(ctx, budget):
 
             tb = traceback.extract_tb(e.__traceback__)
             where = next((f"{fr.filename.split('/')[-1]}:{fr.name}" for fr in reversed(tb) if "cogent3" in fr.filename), "?")
-            add_failure(out, "spec", f"implementation raised {type(e).__name__} on in-bounds input ({where})", dict(model=label),
+            _fail(out, "spec", f"implementation raised {type(e).__name__} on in-bounds input ({where})", dict(model=label),
                         "a valid rate / transition matrix", f"{type(e).__name__}: {str(e)[:200]}", sig=f"raised:{type(e).__name__}:{where}")
     _search_backends(out, ctx, rng, 240 * budget, refs)
     _check_rate_classes(out, ctx, rng, 5 * budget)
